@@ -314,6 +314,41 @@ Fixpoint run (h : str -> str) (tps : Z) (max_age : option Z) (st : store) (evs :
                let '(st'', os) := run h tps max_age st' r in (st'', o :: os)
   end.
 
+(* ---- a cache WITHOUT storage built on a storing cache (tiled_only access) ---------------------------------- *)
+(* `disable_storage: true` (DummyCache: is_cached is False, load_tile finds nothing, store_tile does nothing) on a
+   cache whose source is another cache with a compatible grid and the same format: every request runs
+   TileCreator._create_single_tile; the source is CacheSource(tiled_only) and CacheMapLayer._image hands the image of
+   the LOWER cache's tile through with `cacheable = CacheInfo(cacheable, timestamp, size)` of that tile.
+   The metadata triple of a Tile object is a `tinfo`; a value assigned to Tile.cacheable is a `wcache`.
+   Tile._cacheable_set (cache/tile.py): a bool sets the flag only, a CacheInfo also copies timestamp and size. *)
+Definition set_cacheable (t : tinfo) (c : wcache) : tinfo :=
+  match c with
+  | WBool b => {| ti_cacheable := b; ti_ts := ti_ts t; ti_size := ti_size t |}
+  | WInfo ci => {| ti_cacheable := ti_cacheable ci; ti_ts := ti_ts ci; ti_size := ti_size ci |}
+  end.
+(* _create_single_tile: `tile.timestamp = None; tile.size = None; tile.cacheable = source.cacheable` (in this order) *)
+Definition attach_source (t : tinfo) (c : wcache) : tinfo :=
+  set_cacheable {| ti_cacheable := ti_cacheable t; ti_ts := None; ti_size := None |} c.
+
+(* one event seen through the storage-less cache; `st` is the store of the LOWER cache, `t0` what the Tile object
+   of the upper request held before the source was attached *)
+Definition step_passthrough (h : str -> str) (tps : Z) (max_age : option Z) (t0 : tinfo) (st : store) (ev : event)
+  : store * option outcome :=
+  match ev with
+  | Req svc k inm ims up =>
+    match load st k up with
+    | (st', Some (ci, body)) => (st', Some (serve svc h tps max_age (attach_source t0 (WInfo ci)) body inm ims))
+    | (st', None) => (st', Some Err500)
+    end
+  | Refresh svc k inm ims up =>
+    match load_stale st k up with
+    | (st', Some (ci, body)) => (st', Some (serve svc h tps max_age (attach_source t0 (WInfo ci)) body inm ims))
+    | (st', None) => (st', Some Err500)
+    end
+  | Rewrite k e => (update st k e, None)
+  | Remove k => (remove st k, None)
+  end.
+
 (* ---- comparison helpers for the correspondence check ---------------------------------------------------- *)
 Definition oZ_eqb := opt_eqb Z.eqb.
 Definition ostr_eqb := opt_eqb str_eqb.
